@@ -10,6 +10,7 @@ pub mod c14;
 pub mod c15;
 pub mod c16;
 pub mod c19;
+pub mod c20;
 pub mod c17;
 pub mod c18;
 pub mod proggen;
@@ -124,6 +125,10 @@ pub fn spec(prop: &str) -> Option<CheckSpec> {
             info: PropInfo { id: "C18", engine: "events", rule: "structured random programs (ALU, loads/stores, if/else on all 16 conditions with rel8/rel32, counted loops, direct and indirect jumps and calls, nested functions, balanced push/pop, k returns that no call matches, top-level ret, faulting tails) are stepped; an independent tracer in the harness decodes the instruction at each pre-step RIP, evaluates the branch condition from the pre-step flags/RCX with its own table and maintains the expected entries (source, target, kind, run-length count, level = calls minus returns) and call stack; after EVERY step the structured trace and call stack (hook) are compared with it and trace(), call_stack() and to_string() are called and must return Ok. distinct_nontrivial = distinct (control-flow event kind, outcome) pairs plus (terminal condition, minimum level, trace length) triples.", assumptions: EVENT_ASSUME, floor: (30_000, 2_000_000), exhaustive_subspaces: &[] },
             finalize: None,
         },
+        "C20" => CheckSpec {
+            info: PropInfo { id: "C20", engine: "events", rule: "structured random programs (optionally with the built-in brk/arch_prctl/exit handlers and a scripted MOV hook) whose explicit inputs are: code, memory, flags and a random SUBSET of the registers; (a) two machines built independently in one process (they differ in the constructor's random registers and in every HashMap's RandomState) and (b) the same program in 4 separate worker processes. iced's used-register analysis truncates a run before the first instruction that reads a register nothing has defined, so any remaining difference is a dependence on something the instruction does not name. Compared: result and full error text, every defined GPR/XMM register, RIP, flags, executed count, finished, every area (extent, permissions, contents), structured trace, call stack, rendered trace, FS/GS. distinct_nontrivial = distinct (terminal condition, hooks?, syscalls?, number of undefined registers) tuples. The pipe handler (whose descriptor numbers are the stated exception) is not installed.", assumptions: EVENT_ASSUME, floor: (5_000, 500_000), exhaustive_subspaces: &[] },
+            finalize: Some(c20::finalize),
+        },
         _ => return None,
     })
 }
@@ -155,6 +160,7 @@ pub fn monitor(prop: &str, tier: Tier) -> Option<Box<dyn Monitor>> {
         "C17" => Box::new(c17::C17::new(tier)),
         "C18" => Box::new(c18::C18::new(tier)),
         "C19" => Box::new(c19::C19::new(tier)),
+        "C20" => Box::new(c20::C20::new(tier)),
         _ => return None,
     })
 }
